@@ -7,6 +7,7 @@ import sys
 
 # settings per property: (level, quick runs, thorough runs)
 CHECKS = {
+    "C20": dict(level="exploration", quick=(300, 90), thorough=(15000, 1500)),
     "C19": dict(level="exploration", quick=(400, 100), thorough=(6000, 1500)),
     "C18": dict(level="exploration", quick=(3000, 90), thorough=(40000, 1500)),
     "C16": dict(level="fault_enumeration", quick=(40, 100), thorough=(4000, 1500)),
